@@ -65,13 +65,13 @@ fn cmd_route(args: &[String]) -> i32 {
     let d = match inflate(&out, fmt == "zlib") {
         Ok(d) => d,
         Err(e) => {
-            println!("REPRODUCED reference inflater rejects output: {:?}", e);
+            println!("REPRODUCED C10 reference inflater rejects output: {:?}", e);
             return 1;
         }
     };
     let mut bad = 0;
     if d.out != input {
-        println!("REPRODUCED output does not decode to the input");
+        println!("REPRODUCED C10 output does not decode to the input");
         bad += 1;
     }
     let eff_level = level.min(10);
@@ -83,38 +83,38 @@ fn cmd_route(args: &[String]) -> i32 {
         fmt, level, strat, wbits, d.max_dist, d.min_len, d.cmf, d.block_types, out.len()
     );
     if rle_requested && d.max_dist > 1 {
-        println!("REPRODUCED C10: RLE strategy requested but a match with distance {} was emitted", d.max_dist);
+        println!("REPRODUCED C10 RLE strategy requested but a match with distance {} was emitted", d.max_dist);
         bad += 1;
     }
     if let Some(cmf) = d.cmf {
         let declared = 1u32 << ((cmf >> 4) as u32 + 8);
         if d.max_dist > declared {
             println!(
-                "REPRODUCED C11: header declares a {}-byte window (CMF {:#04x}) but a match reaches back {} bytes (forced RLE: {})",
+                "REPRODUCED C11 header declares a {}-byte window (CMF {:#04x}) but a match reaches back {} bytes (forced RLE: {})",
                 declared, cmf, d.max_dist, rle_forced
             );
             bad += 1;
         }
     }
     if eff_level == 0 && (d.block_types[1] != 0 || d.block_types[2] != 0) {
-        println!("REPRODUCED C10: level 0 emitted a Huffman block");
+        println!("REPRODUCED C10 level 0 emitted a Huffman block");
         bad += 1;
     }
     if strat == 4 && eff_level != 0 && d.block_types[2] != 0 {
-        println!("REPRODUCED C10: fixed strategy emitted a dynamic block");
+        println!("REPRODUCED C10 fixed strategy emitted a dynamic block");
         bad += 1;
     }
     if strat == 2 && d.max_dist != 0 {
-        println!("REPRODUCED C10: huffman-only emitted a match");
+        println!("REPRODUCED C10 huffman-only emitted a match");
         bad += 1;
     }
-    if strat == 1 && eff_level != 0 && !rle_forced && d.min_len < 6 && d.min_len != u32::MAX {
-        // filter_small drops matches of length <= 5
-        println!("REPRODUCED C10: filtered strategy emitted a match of length {}", d.min_len);
+    if strat == 1 && eff_level != 0 && !rle_forced && d.min_len < 5 {
+        // the property: no match shorter than 5
+        println!("REPRODUCED C10 filtered strategy emitted a match of length {}", d.min_len);
         bad += 1;
     }
     if d.final_blocks != 1 {
-        println!("REPRODUCED C10: {} final blocks", d.final_blocks);
+        println!("REPRODUCED C10 {} final blocks", d.final_blocks);
         bad += 1;
     }
     if bad == 0 {
